@@ -38,7 +38,8 @@ RULE = ("cases come from one PRNG seeded by VERIF_SEED plus fixed catalogues: Ba
         "with every leading-zero run; every witness version 0..16 (and 17..31, outside the statement) x every program "
         "length 2..40 x 4 networks; WIF boundary secrets x compressed x networks; 5 templates x 4 networks; every "
         "single substitution over the bech32 alphabet at every data-part position of sampled segwit addresses, sampled "
-        "double substitutions; Base58Check strings with altered characters.  A case is non-trivial when its input is "
+        "double substitutions; addresses built by a specification encoder for every witness version 0..16 x program length "
+        "{2,20,32,33,40} x both checksum constants x 4 networks; Base58Check strings with altered characters.  A case is non-trivial when its input is "
         "not empty; distinct = distinct (operation, input) pairs")
 CLAUSES = {
     "Base58 decoding inverts encoding for every payload (leading zeros)":
@@ -69,6 +70,11 @@ CLAUSES = {
     "TxOut.to_address inverts address() (F09a, fixed)": "proved for the repaired prefix list on every network "
         "(address_roundtrip_*); for the pre-fix list on every network but regtest (toAddress_roundtrip_partial) and "
         "F09a_witness for regtest; which list the source has is re-extracted on every run (Gen.toAddrSegwitPrefixes)",
+    "address -> script accepts only the (version, length, checksum kind) triples the library has a script type for "
+    "(v0/20, v0/32 bech32; v1/32 bech32m), returns the script of THAT version, and refuses versions 2..16":
+        "proved (toAddress_segwit_sound, toAddress_segwit_refuses, addressToScriptPubkey_other_version, "
+        "bech32_decode_constant); on the real code: segwit_grid (specification-built addresses, 17 versions x 5 lengths x "
+        "2 constants x 4 networks through both consumers)",
     "objects do not remember earlier queries (ScriptPubKey.address on several networks, PrivateKey.wif with different "
     "arguments, every query issued twice)": "correspondence-only (spk_history, wif_history, doubled requests)",
 }
@@ -137,6 +143,30 @@ def ref_b58_combined(s):
             n = n * 58 + B58.index(c)
     body = n.to_bytes((n.bit_length() + 7) // 8, "big") if n else b""
     return b"\x00" * zeros + body
+
+
+def ref_convertbits_8_5(data):
+    """BIP173 reference regrouping of bytes into 5-bit groups, zero padded"""
+    acc, bits, out = 0, 0, []
+    for b in data:
+        acc = (acc << 8) | b
+        bits += 8
+        while bits >= 5:
+            bits -= 5
+            out.append((acc >> bits) & 31)
+    if bits:
+        out.append((acc << (5 - bits)) & 31)
+    return out
+
+
+def ref_segwit_address(hrp, version, prog, const):
+    """address text per BIP173/BIP350 with the given checksum constant; independent of the library"""
+    data = [version] + ref_convertbits_8_5(prog)
+    pm = ref_polymod(ref_hrp_expand(hrp) + data + [0] * 6) ^ const
+    return hrp + "1" + "".join(CHARSET[d] for d in data + [(pm >> 5 * (5 - i)) & 31 for i in range(6)])
+
+
+BECH32_CONST, BECH32M_CONST = 1, 0x2BC830A3
 
 
 def h256(b):
@@ -389,7 +419,32 @@ def canon_str(fn):
         return REJECT
 
 
-PREDICATES = {"spk_history": p_spk_history, "wif_history": p_wif_history, "b58_roundtrip": p_b58_rt, "b58check_roundtrip": p_b58check_rt, "b58check_iff": p_b58check_iff,
+def p_segwit_grid(c):
+    """An address built by the specification encoder (witness version, program length, checksum kind) goes through
+    address_to_script_pubkey and TxOut.to_address.  Both accept it only when the library has a script type for the
+    triple - v0/20 and v0/32 with the bech32 constant, v1/32 with the bech32m constant - and then the script is
+    exactly OP_n <program> of THAT version and script.address(net) gives the address back; anything else is refused."""
+    import buidl.script as SC
+    import buidl.tx as TX
+    v, prog, const, net = c["v"], unx(c["prog"]), c["const"], c["net"]
+    addr = ref_segwit_address(HRP[net], v, prog, const)
+    ok_triple = (v == 0 and len(prog) in (20, 32) and const == BECH32_CONST) or \
+                (v == 1 and len(prog) == 32 and const == BECH32M_CONST)
+    opn = 0 if v == 0 else 0x50 + v
+    want = [opn, xb(prog), addr] if ok_triple else REJECT
+    got = []
+    for fn in (SC.address_to_script_pubkey, lambda a: TX.TxOut.to_address(a, 7).script_pubkey):
+        try:
+            spk = fn(addr)
+            cmds = spk.commands
+            got.append([cmds[0], xb(cmds[1]), spk.address(net)] if len(cmds) == 2 and isinstance(cmds[1], bytes)
+                       else ["unexpected commands", repr(cmds)[:80]])
+        except Exception:
+            got.append(REJECT)
+    return got == [want, want], {"address": addr, "address_to_script_pubkey": got[0], "to_address": got[1]}, want
+
+
+PREDICATES = {"segwit_grid": p_segwit_grid, "spk_history": p_spk_history, "wif_history": p_wif_history, "b58_roundtrip": p_b58_rt, "b58check_roundtrip": p_b58check_rt, "b58check_iff": p_b58check_iff,
               "bech32_roundtrip": p_b32_rt, "bech32_wrong_constant": p_b32_wrong_constant, "bech32_subst": p_subst,
               "wif_roundtrip": p_wif_rt, "a2s_roundtrip": p_a2s_rt, "to_address_roundtrip": p_to_address_rt}
 
@@ -617,6 +672,18 @@ def run(ctx):
                     continue
                 lines.append(("a2s_odd", f"a2s {xs(a)}"))
                 lines.append(("to_addr_odd", f"to_addr {xs(a)}"))
+
+    # ---- specification-built segwit addresses: every version x program length x checksum kind x network
+    for net in NETS:
+        for v in range(0, 17):
+            for ln in (2, 20, 32, 33, 40):
+                for const in (BECH32_CONST, BECH32M_CONST):
+                    prog = rbytes(rng, ln)
+                    preds.append(("segwit_grid", {"v": v, "prog": xb(prog), "const": const, "net": net}))
+                    a = ref_segwit_address(HRP[net], v, prog, const)
+                    lines.append(("a2s_grid", f"a2s {xs(a)}"))
+                    lines.append(("to_addr_grid", f"to_addr {xs(a)}"))
+                    lines.append(("b32_dec_grid", f"b32_dec {xs(a)}"))
 
     # ---- object-reuse histories (the codecs are stateless; the objects must not remember a network or a flag)
     for kind in range(5):
